@@ -60,6 +60,11 @@ def make_line(rng, v, seg, kind, toks, ec):
             m = max(vals)
             return f.join([seg] + [vals.get(i, '') for i in range(1, m + 1)])
     if kind == 'compbeyond':
+        vr = [r for r in rows if r.ok and r.datatype == 'varies' and r.num and r.card[1] != 0]
+        if vr and rng.random() < 0.6:
+            # a `varies` field holds as many components as the sender writes: ten and more
+            r = rng.choice(vr)
+            return f.join([seg] + [''] * (r.num - 1) + ['^'.join(toks.next() for _ in range(rng.randint(10, 14)))])
         cands = [r for r in gen.usable_rows(v, seg) if r.kind == 'sequence']
         if cands:
             r = rng.choice(cands)
